@@ -9,4 +9,13 @@ def run(ctx):
              "although it is not random in the call (or skipped although it is)",
         rule_extra="Constraints of a class refer to fields of its sub-objects by attribute path; several sub-objects of one class "
                    "occur as siblings. The tie maps every solver variable back to the field object reached by the attribute path.",
-        assumptions=["objects stored in lists: see C04"])
+        assumptions=["lists of objects: fixed populations of 2-3 elements (second stream); random-size lists of objects are not generated"])
+    tree_common.extra_stream(
+        ctx, "C08", 2 | 16,
+        "a constraint reached a different field than the path through a list element names, or an element's blocks were enforced "
+        "although the list is not random in the call (or skipped although it is)",
+        tag="c08l", key="object_list_stream",
+        rule="the same trees with 1-2 lists of 2-3 objects in the root: constraints name element fields by index (self.l[1].f), "
+             "foreach blocks relate the element's fields to constants, the index, the container's fields and each other; the "
+             "element class has constraint blocks of its own",
+        olists=True)
